@@ -314,6 +314,27 @@ func extractC09() *lean {
 	}
 	l.def("createBinding", "String", strconv.Quote(createCmp), createCmp)
 
+	// nil-JWK guards: `VerificationMethod.JWK()` returns (nil, nil) without publicKeyJwk; does the caller test for nil?
+	nilGuard := func(fd *ast.FuncDecl) bool {
+		found := false
+		if fd != nil {
+			ast.Inspect(fd, func(n ast.Node) bool {
+				if be, ok := n.(*ast.BinaryExpr); ok && be.Op == token.EQL {
+					l, r := exprString(be.X), exprString(be.Y)
+					if (l == "keyAsJWK" && r == "nil") || (r == "keyAsJWK" && l == "nil") {
+						found = true
+					}
+				}
+				return true
+			})
+		}
+		return found
+	}
+	g1 := nilGuard(c09Method(val, "verificationMethodValidator", "verifyThumbprint"))
+	g2 := nilGuard(c09Method(amb, "ambassador", "findKeyByThumbprint"))
+	l.def("verifyThumbprintGuardsNilJwk", "Bool", map[bool]string{true: "true", false: "false"}[g1], g1)
+	l.def("findKeyGuardsNilJwk", "Bool", map[bool]string{true: "true", false: "false"}[g2], g2)
+
 	// ---- dag/keys.go: the only error the key resolver moves on from
 	_, keys := parseFile("network/dag/keys.go")
 	keyCont := ""
